@@ -32,6 +32,8 @@ func catch(err *error) {
 		switch x := p.(type) {
 		case Invalid:
 			*err = x
+		case refssz.LimitError:
+			*err = Invalid{"not a valid SSZ object: " + x.Error()}
 		case runtime.Error:
 			if strings.Contains(x.Error(), "index out of range") || strings.Contains(x.Error(), "slice bounds out of range") {
 				*err = Invalid{"IndexError: " + x.Error()}
